@@ -4,7 +4,7 @@ from mindsdb_sql.parser.ast import *
 from mindsdb_sql.exceptions import ParsingException
 from mindsdb_sql.parser.lexer import SQLLexer
 from mindsdb_sql.parser.logger import ParserLogger
-from mindsdb_sql.parser.utils import ensure_select_keyword_order, JoinType
+from mindsdb_sql.parser.utils import ensure_select_keyword_order, JoinType, node_to_message
 
 
 class SQLParser(Parser):
@@ -91,7 +91,7 @@ class SQLParser(Parser):
             and expr.op == '='
             and isinstance(expr.args[0], Identifier)
         ):
-            raise ParsingException(f'Expected "SET name = value", got "SET {str(expr)}"')
+            raise ParsingException(f'Expected "SET name = value", got "SET {node_to_message(expr)}"')
         return Set(name=expr.args[0], value=expr.args[1])
 
     @_('SET id identifier')
@@ -205,7 +205,7 @@ class SQLParser(Parser):
 
         if where is not None and not isinstance(where, Operation):
             raise ParsingException(
-                f"WHERE must contain an operation that evaluates to a boolean, got: {str(where)}")
+                f"WHERE must contain an operation that evaluates to a boolean, got: {node_to_message(where)}")
 
         return Delete(table=p.from_table, where=where)
 
@@ -373,7 +373,7 @@ class SQLParser(Parser):
         having = p.expr
         if not isinstance(having, Operation):
             raise ParsingException(
-                f"HAVING must contain an operation that evaluates to a boolean, got: {str(having)}")
+                f"HAVING must contain an operation that evaluates to a boolean, got: {node_to_message(having)}")
         select.having = having
         return select
 
@@ -395,7 +395,7 @@ class SQLParser(Parser):
         where_expr = p.expr
         if not isinstance(where_expr, Operation):
             raise ParsingException(
-                f"WHERE must contain an operation that evaluates to a boolean, got: {str(where_expr)}")
+                f"WHERE must contain an operation that evaluates to a boolean, got: {node_to_message(where_expr)}")
         select.where = where_expr
         return select
 
@@ -498,7 +498,7 @@ class SQLParser(Parser):
     def result_column(self, p):
         col = p.result_column
         if col.alias:
-            raise ParsingException(f'Attempt to provide two aliases for {str(col)}')
+            raise ParsingException(f'Attempt to provide two aliases for {node_to_message(col)}')
         if len(p.identifier.parts) > 1:
             raise ParsingException('Alias can not contain multiple parts (dots).')
         col.alias = p.identifier
